@@ -2,9 +2,10 @@
 import io
 import copy
 import itertools
+import collections
 from .. import model, sweep, refs, codecs
 from ..runner import Result
-from ..bridge import T, build, quiet, monitor, extract, mt_equal, all_nodes, raw_leaves, cli_options, build_any
+from ..bridge import T, build, quiet, monitor, extract, mt_equal, all_nodes, raw_leaves, cli_options, build_any, perturb
 
 from trees import transform, treeoutput
 
@@ -263,6 +264,30 @@ def check_one(mtj, root_attach, order=None, rules=None):
     labs_out = sorted(nd[0] for nd in model.mt_all(got.root) if not isinstance(nd, int))
     if labs_in != labs_out:
         bad('label-multiset', 'boyd_split+raising', '%r != %r' % (labs_in, labs_out), 'label multiset changed')
+    # non-initial state: the same objects, a token re-attached by hand (a new gap), split again.  The flags
+    # of the first run are still on the nodes; blocks and marking must describe the tree as it is now.
+    if not out and rules is None and order is None and perturb(r, 'last'):
+        try:
+            now = extract(r)
+            t2 = transform.boyd_split(transform.negra_mark_heads(r))
+            probs = monitor(t2, mt.n())
+            if not probs:
+                labels = collections.Counter(nd[0] for nd in model.mt_all(now.root) if not isinstance(nd, int))
+                exp2 = []
+                for nd in model.mt_all(now.root):
+                    if not isinstance(nd, int) and nd is not now.root and labels[nd[0]] == 1:
+                        blocks = model.blocks_of(model.leaves(nd))
+                        exp2 += [(nd[0] + ('*%d' % (i + 1) if len(blocks) > 1 else ''), tuple(b)) for i, b in enumerate(blocks)]
+                got2 = [(T.get_label(x, boyd_split_marking=True, boyd_split_numbering=True), tuple(node_span(x)))
+                        for x in all_nodes(t2) if x.children and x is not t2 and labels[x.data['label']] == 1]
+                if sorted(got2) != sorted(exp2):
+                    probs.append('blocks with marking %r, expected %r' % (sorted(got2), sorted(exp2)))
+        except Exception as e:
+            probs = ['%s: %s' % (type(e).__name__, e)]
+        if probs:
+            bad('second-split', 'boyd_split', 'after boyd_split+raising the last token was re-attached by hand giving %s; '
+                'boyd_split on that: %s' % (model.mt_str(now.root), '; '.join(probs)),
+                'boyd_split on a tree that was split and raised before does not describe the tree as it is now')
     return out, disc
 
 
